@@ -527,6 +527,7 @@ type vf6Case struct {
 	hasRdb  bool
 	rdbLeft int64
 	rdbSize int64
+	extra   string // "1 <resume> <done> <e>" when the real RedisOutput is used
 	tokId   string // history the cached snapshot was taken from (ghost; the cache label may have changed since)
 	hasAof  bool
 	aofL    int64
@@ -550,7 +551,14 @@ func (c *vf6Case) opLine(tag string) string {
 		tag, c.backend, vfutil.HexS(s.id1), vfutil.HexS(s.id2), s.switchOff, vf6B(s.backlog), s.first, s.blen, s.master,
 		s.snapLen, vf6B(s.capaId), s.k, vfutil.HexS(c.sp.RunId), c.sp.Offset, vfutil.HexS(c.cRun),
 		vf6Opt(c.hasRdb, c.rdbLeft), vf6Opt(c.hasRdb, c.rdbSize), vfutil.HexS(c.tokId), vf6Opt(c.hasAof, c.aofL), vf6Opt(c.hasAof, c.aofR),
-		c.sb, c.s1, c.s2, c.so, vf6B(c.fresh), c.logSize, vf6B(s.heartbeat))
+		c.sb, c.s1, c.s2, c.so, vf6B(c.fresh), c.logSize, vf6B(s.heartbeat)) + c.extraTok()
+}
+
+func (c *vf6Case) extraTok() string {
+	if c.extra == "" {
+		return ""
+	}
+	return " " + c.extra
 }
 
 func vf6ParseCase(line string) (*vf6Case, error) {
@@ -853,7 +861,21 @@ func (h *vf6H) round(c *vf6Case, inner Channel, replay map[string]interface{}, r
 	if out.readErr != "" {
 		bline += " !read=" + strings.ReplaceAll(out.readErr, " ", "_")
 	}
-	s.Op(op, qline, mline, ioline, aline, bline)
+	lines := []string{qline, mline, ioline, aline, bline}
+	if real != nil {
+		// the position the real output holds after the round, against the model's `step`
+		e := int64(0)
+		if out.sent && out.kind == "aof" {
+			e = out.left + int64(len(out.got))
+		}
+		c.extra = fmt.Sprintf("1 %s %s %d", vf6B(real.ro.cfg.EnableResumeFromBreakPoint), vf6B(out.sent && !out.interrupted), e)
+		op = c.opLine(tag)
+		sp2, _ := real.ro.StartPoint(context.Background(), ids)
+		lines = append(lines, fmt.Sprintf("%s tgt stored=%s:%d", tag, vfutil.HexS(sp2.RunId), sp2.Offset))
+	} else {
+		c.extra = ""
+	}
+	s.Op(op, lines...)
 
 	// ---- coverage
 	s.Count(fmt.Sprintf("branch_%d_%s_%s", br, map[bool]string{true: "full", false: "cont"}[full], c.backend))
@@ -1083,6 +1105,7 @@ func (h *vf6H) round(c *vf6Case, inner Channel, replay map[string]interface{}, r
 		}
 	}
 	res.after.fresh = false
+	res.after.extra = ""
 	return res
 }
 
